@@ -485,6 +485,46 @@ func c10(c *Ctx) {
 		}
 	}
 
+	// ---- C10.5 nodes of one tree are cached under keys that carry the tree's id --------------------------------------
+	// the node cache is shared by all the trees of a store: a key without the tree id lets one index serve (and be
+	// served) nodes of another
+	r = "C10.5/cache-keys-carry-tree-id"
+	nk := 0
+	for _, fn := range c.allFns {
+		if !fnInPkgs(fn, tbPkgs) || len(fn.Blocks) == 0 {
+			continue
+		}
+		for i, in := range sites(fn, callTo("embedded/cache.(*Cache).Get@cache", "embedded/cache.(*Cache).Put@cache", "embedded/cache.(*Cache).PutWeighted@cache", "embedded/cache.(*Cache).Pop@cache", "embedded/cache.(*Cache).Replace@cache")) {
+			recv := desc(callOf(in).Args[0])
+			if !strings.Contains(recv, ".cache") || strings.Contains(recv, "Snapshot") {
+				continue
+			}
+			nk++
+			key := callOf(in).Args[1]
+			if mi, ok := key.(*ssa.MakeInterface); ok {
+				key = mi.X
+			}
+			withID := dependsOn(key, func(v ssa.Value) bool {
+				if cl, ok := v.(*ssa.Call); ok && calleeName(&cl.Call) == "embedded/tbtree.encodeOffset" {
+					return true
+				}
+				if ld, ok := v.(*ssa.UnOp); ok {
+					if fl, _ := fieldOf(ld.X); fl == "TBtree.id" {
+						return true
+					}
+				}
+				return false
+			})
+			c.check(withID, r, fmt.Sprintf("%s:%s#%d", fnName(fn), lastSeg(calleeName(callOf(in))), i), c.pos(in.Pos()), "key = encodeOffset(t.id, offset)", "the shared node cache is addressed with "+desc(key)+", which does not include the tree id")
+		}
+	}
+	if nk < 3 {
+		c.undecided(r, "floor", fmt.Sprintf("%d accesses of the shared node cache found", nk))
+	}
+	if f := c.mustFn(r, "embedded/tbtree.encodeOffset"); f != nil {
+		c.paramsUsed(r, f)
+	}
+
 	r = "C10.3/snapshots-pin-roots"
 	if f := c.mustFn(r, tbT+"SnapshotMustIncludeTsWithRenewalPeriod"); f != nil {
 		reg := func(in ssa.Instruction) bool {
